@@ -3,7 +3,6 @@ import Prism.Model.Jpeg
 import Prism.Model.Webp
 import Prism.Model.Icc
 
-deriving instance DecidableEq for Except
 
 /-!
 # C09 — hostile input cannot crash the caller, hang, or balloon memory (partial)
